@@ -255,7 +255,13 @@ func addModuleSentinel(ctx context.Context, rootPath string) (err error) {
 		sentinelLocation = path.Join(fromBundleConfig(ctx).mainRoot, rootPath)
 	}
 
-	pathInBundle := path.Join(ModuleDir, sentinelLocation)
+	// The sentinel has to end up next to the files of its module: bundleLocalFile puts the
+	// files of a main script without a module under NoModuleDir.
+	dir := ModuleDir
+	if !isImportModule(ctx) && fromBundleConfig(ctx).mainRoot == "" {
+		dir = NoModuleDir
+	}
+	pathInBundle := path.Join(dir, sentinelLocation)
 	if exists, err := ctxfs.FileExists(ctx, bundleFsKey, pathInBundle); err != nil {
 		return err
 	} else if exists {
